@@ -2,7 +2,7 @@
 """Acceptance trials for C12 / C03 (builder `builders`): apply one textual edit (or one patch file) to the scratch copy
 of the library, run the check(s), record what fired, revert.   usage: tools/mutants_builders.py [name-substring]
 The scratch copy (MUTANT_REPO, default /work/builders/repo) is expected to hold the tree the checks are green on
-(currently /repo HEAD + docs/patches/F30.diff)."""
+(currently /repo HEAD, which contains the F30 fix)."""
 import json, os, subprocess, sys
 HERE = os.path.dirname(os.path.dirname(os.path.abspath(__file__)))
 REPO = os.environ.get("MUTANT_REPO", "/work/builders/repo")
@@ -45,6 +45,8 @@ M = [
 # patch files: (name, path of the diff, reverse?, properties)
 P = [
  ("revert F30 (Rpms.add accepts an empty path again)", "docs/patches/F30.diff", True, ["C12"]),
+ ("seeded C12-r1a (dump_for_tree rewrites the stored record in place)", "seeded/C12-r1a/patch.diff", False, ["C12"]),
+ ("seeded C12-r1b", "seeded/C12-r1b/patch.diff", False, ["C12"]),
  ("seeded C12-s2a (Modules.add overwrites the RPM list)", "seeded/C12-s2a/patch.diff", False, ["C12", "C03"]),
  ("seeded C12-s2b (setdefault of variant/arch before the srpm check)", "seeded/C12-s2b/patch.diff", False, ["C12"]),
  ("seeded C03-s3a (sigkey lower-cased on load instead of in add)", "seeded/C03-s3a/patch.diff", False, ["C03", "C12"]),
